@@ -24,7 +24,7 @@ type c03Truth struct {
 }
 
 func C03(c *core.Ctx) {
-	c.Rule = "collateral responses for an otherwise valid quote: genuine; single-bit mutants of the signed member, of the signature and of the issuer-chain header (sampled); re-signing with a foreign key, with the PCK intermediate (wrong role), with a look-alike TCB signer, with look-alike PKIs whose signer / root are not yet valid or expired at the verification time; re-encoding (whitespace / key order) without re-signing; signature over the whole body; unsigned extra and duplicate members under exact, upper-case, title-case and Unicode-fold spellings of tcbInfo / enclaveIdentity / signature, placed before and after the genuine member, carrying values that would flip the verdict; wrong id / version; empty level list; missing members; missing / duplicated / empty / garbage headers; getter errors. Ground truth: accepted iff the signed content is authentic and acceptable; unsigned content never changes a rejection into an acceptance. non-trivial = the response parses as JSON (reaches authentication); distinct = distinct response sets"
+	c.Rule = "collateral responses for an otherwise valid quote: genuine; single-bit mutants of the signed member, of the signature and of the issuer-chain header (sampled); re-signing with a foreign key, with the PCK intermediate (wrong role), with a look-alike TCB signer (both responses, and one response only with the other genuine), with look-alike PKIs whose signer / root are not yet valid or expired at the verification time; re-encoding (whitespace / key order) without re-signing; signature over the whole body; unsigned extra and duplicate members under exact, upper-case, title-case and Unicode-fold spellings of tcbInfo / enclaveIdentity / signature, placed before and after the genuine member, carrying values that would flip the verdict; wrong id / version; empty level list; missing members; missing / duplicated / empty / garbage headers; getter errors. Ground truth: accepted iff the signed content is authentic and acceptable; unsigned content never changes a rejection into an acceptance. non-trivial = the response parses as JSON (reaches authentication); distinct = distinct response sets"
 	r := c.Rng
 	pki, err := world.NewPKI(r, world.PKIOpts{Now: baseTime, Ext: world.RandomSGXExt(r)})
 	if err != nil {
@@ -172,6 +172,36 @@ func C03(c *core.Ctx) {
 	resign("signed by a look-alike TCB signer, header claims the genuine root", other.TcbSigner, other.TcbSigner, pki.Root, false)
 	resign("signed by the genuine signer, header lists signer under look-alike root", pki.TcbSigner, pki.TcbSigner, other.Root, false)
 	resign("header lists root as signer", pki.TcbSigner, pki.Root, pki.Root, false)
+	// one response altered, the other genuine: each response is authenticated by the issuer chain
+	// delivered with it, not by the other response's
+	for _, which := range []string{"tcb", "qe"} {
+		which := which
+		oneHdr := func(desc string, signer, chainSigner, chainRoot *world.Cert, resignBody bool, want bool) {
+			try(w, "resign-one", which+": "+desc, func(resp map[string]world.Resp, t, q string) {
+				hdr := pki.IssuerChainHeader(chainSigner, chainRoot)
+				if which == "tcb" {
+					x := resp[t]
+					x.Header = map[string][]string{world.TcbInfoIssuerChainHeader: {hdr}}
+					if resignBody {
+						x.Body = world.Envelope("tcbInfo", ti, world.SignMember(r, signer.Key, ti))
+					}
+					resp[t] = x
+				} else {
+					x := resp[q]
+					x.Header = map[string][]string{world.QeIdentityIssuerChainHeader: {hdr}}
+					if resignBody {
+						x.Body = world.Envelope("enclaveIdentity", qi, world.SignMember(r, signer.Key, qi))
+					}
+					resp[q] = x
+				}
+			}, want)
+		}
+		oneHdr("genuine body and signer, header root replaced by a look-alike root", pki.TcbSigner, pki.TcbSigner, other.Root, false, false)
+		oneHdr("genuine body, header signer replaced by a look-alike signer", pki.TcbSigner, other.TcbSigner, pki.Root, false, false)
+		oneHdr("re-signed by a look-alike PKI with its own header", other.TcbSigner, other.TcbSigner, other.Root, true, false)
+		oneHdr("re-signed by a look-alike signer, header claims the genuine root", other.TcbSigner, other.TcbSigner, pki.Root, true, false)
+		oneHdr("re-signed by the genuine signer (control)", pki.TcbSigner, pki.TcbSigner, pki.Root, true, true)
+	}
 	// look-alike PKIs whose certificates are outside their validity period at the verification
 	// time: a path-building error about dates must not be mistaken for "trust established"
 	day := 24 * time.Hour
